@@ -44,7 +44,7 @@ def column_index_to_label(column):
     return result.upper()
 
 
-LABEL_EXTRACT_REGEXP = re.compile(r'^([$])?([A-Za-z]+)([$])?([0-9]+)$')
+LABEL_EXTRACT_REGEXP = re.compile(r'^([$])?([A-Za-z]+)([$])?([0-9]+)\Z')
 
 ParsedLabel = namedtuple('ParsedLabel', ['index', 'label', 'is_absolute'])
 
